@@ -403,6 +403,12 @@ def run_obligation(ob, seed=0):
     sp = getattr(ob, '_space', None)
     if sp is not None:
         rec['functions_encoded'] = sp.functions_encoded()
+    info = getattr(ob, '_info', None)
+    if info is not None:
+        rec.setdefault('functions_encoded', []).append({
+            'file': info['file'], 'qualname': info['qualname'] + ' (AST slice)',
+            'line': 0, 'calls': rec['paths'], 'sha256': info['sha256'],
+            'statements': info['statements']})
     return rec
 
 
